@@ -101,8 +101,14 @@ fn describe(obj: &Rc<dyn RTObject>) -> (String, J) {
                     })
                     .collect();
                 items.sort();
-                let mut origins = l.get_origin_names();
-                origins.sort();
+                // `get_origin_names` unwraps the origin of every item
+                let origins = if l.items.keys().all(|k| k.get_origin_name().is_some()) {
+                    let mut origins = l.get_origin_names();
+                    origins.sort();
+                    json!(origins)
+                } else {
+                    J::Null
+                };
                 ("list".into(), json!({"items": items, "origins": origins}))
             }
         };
